@@ -771,7 +771,8 @@ func smallPaths() []*PathJ {
 
 var plainElems = []BS{"a", "b", "a/b", "/", "a/", "/a", "é", "x=y", "*", "...", "interfaces", "a//b", "=", "日本"}
 var oddElems = []BS{"", "a\\", "a[x=1]", "a[x=1][y=2]", "a[y=2][x=\\]]", "a b", "[", "]", "a[", "a]", "\\", "\\\\", "a[x=1]b", "a[x=]",
-	"a[=1]", "[x=1]", "a[x y=1]", "a[x=1][x=2]", "\xff", "a\xc3", "a[x=1/2]", "a\\[x", "a[x=a=b]", "a[x=\\=]", " "}
+	"a[=1]", "[x=1]", "a[x y=1]", "a[x=1][x=2]", "\xff", "a\xc3", "a[x=1/2]", "a\\[x", "a[x=a=b]", "a[x=\\=]", " ",
+	"\xe0\xa0", "a\xffb/c", "\xed\xa0\x80", "\xf0\x9f\x98", "\xc3\x28", "a[k=\xff]", "a[\xff=1]", "\xff/", "\xc3/", "/\xe2\x82"}
 
 func randQuery(r *vh.Rand, odd bool) []BS {
 	n := r.Pick(1, 4, 5, 4, 2)
@@ -784,6 +785,36 @@ func randQuery(r *vh.Rand, odd bool) []BS {
 		}
 	}
 	return q
+}
+
+// utf8Alphabet: the bytes at which utf8.ValidString changes its mind.
+var utf8Alphabet = []byte{0x2f, 0x41, 0x7f, 0x80, 0x8f, 0x90, 0x9f, 0xa0, 0xbf, 0xc0, 0xc1, 0xc2, 0xdf, 0xe0, 0xe1, 0xed, 0xee, 0xef, 0xf0, 0xf1, 0xf4, 0xf5, 0xff}
+
+func utf8Strings(n int) []BS {
+	var out []BS
+	var rec func(prefix []byte, k int)
+	rec = func(prefix []byte, k int) {
+		if k == 0 {
+			out = append(out, BS(prefix))
+			return
+		}
+		for _, b := range utf8Alphabet {
+			rec(append(append([]byte{}, prefix...), b), k-1)
+		}
+	}
+	for k := 1; k <= n; k++ {
+		rec(nil, k)
+	}
+	return out
+}
+
+func randUTF8ish(r *vh.Rand) BS {
+	n := 1 + r.Intn(6)
+	b := make([]byte, n)
+	for i := range b {
+		b[i] = utf8Alphabet[r.Intn(len(utf8Alphabet))]
+	}
+	return BS(b)
 }
 
 func f64(x float64) uint64 { return math.Float64bits(x) }
@@ -1197,6 +1228,22 @@ func main() {
 		e.add(&Case{Family: "query-malformed", Kind: "query", Q: randQuery(r, true)})
 	}
 
+	// --- UTF-8: validity (FromScalar) and rune re-encoding (query) at the byte boundaries
+	depth := 2
+	if o.Thorough() {
+		depth = 3
+	}
+	for _, us := range utf8Strings(depth) {
+		x := ScalarJ{K: "string", S: us}
+		e.add(&Case{Family: "utf8-exhaustive", Kind: "fromto", X: &x})
+	}
+	for i := 0; i < 500*scale; i++ {
+		us := randUTF8ish(r)
+		x := ScalarJ{K: "string", S: us}
+		e.add(&Case{Family: "utf8-random", Kind: "fromto", X: &x})
+		e.add(&Case{Family: "utf8-random", Kind: "query", Q: []BS{"x", us}})
+	}
+
 	// --- scalars
 	for _, x := range scalarBasis() {
 		x := x
@@ -1221,6 +1268,33 @@ func main() {
 		for j := range basis {
 			a, b := basis[i], basis[j]
 			e.add(&Case{Family: "equal-pairs", Kind: "equal", A: &a, B: &b})
+		}
+	}
+	// look-alikes across arms: the same number / the same bytes in every arm that can hold them
+	for _, v := range []int64{0, 1, 2} {
+		var fam []TVJ
+		fam = append(fam, TVJ{K: "int", I: v}, TVJ{K: "uint", U: uint64(v)}, TVJ{K: "float", Bits: f32(float32(v))},
+			TVJ{K: "double", Bits: f64(float64(v))}, TVJ{K: "decimal", I: v}, TVJ{K: "decimal", I: v * 10, Prec: 1},
+			TVJ{K: "bool", B: v != 0}, TVJ{K: "string", S: BS(fmt.Sprint(v))}, TVJ{K: "bytes", S: BS(fmt.Sprint(v))},
+			TVJ{K: "leaflist", L: []TVJ{{K: "int", I: v}}}, TVJ{K: "leaflist", L: []TVJ{{K: "uint", U: uint64(v)}}})
+		for i := range fam {
+			for j := range fam {
+				a, b := fam[i], fam[j]
+				e.add(&Case{Family: "equal-lookalike", Kind: "equal", A: &a, B: &b})
+			}
+		}
+	}
+	for _, sv := range []BS{"", "a", `"x"`} {
+		var fam []TVJ
+		for _, k := range []string{"string", "bytes", "ascii", "json", "jsonietf", "protobytes"} {
+			fam = append(fam, TVJ{K: k, S: sv})
+		}
+		fam = append(fam, TVJ{K: "leaflist", L: []TVJ{{K: "string", S: sv}}}, TVJ{K: "leaflist", L: []TVJ{{K: "bytes", S: sv}}})
+		for i := range fam {
+			for j := range fam {
+				a, b := fam[i], fam[j]
+				e.add(&Case{Family: "equal-lookalike", Kind: "equal", A: &a, B: &b})
+			}
 		}
 	}
 	for i := 0; i < 1500*scale; i++ {
